@@ -24,9 +24,12 @@ def log(*a):
 
 
 def scratch(name):
-    d = os.path.join(WORK, name)
+    """a scratch directory private to this invocation (two runs of the same check must not share one), removed at exit"""
+    import atexit
+    d = os.path.join(WORK, f"{name}.{os.getpid()}")
     shutil.rmtree(d, ignore_errors=True)
     os.makedirs(d)
+    atexit.register(lambda: shutil.rmtree(d, ignore_errors=True))
     return d
 
 
